@@ -722,8 +722,17 @@ class UserTrackingManager:
             # The tasks are only cancelled and not awaited: when the connection
             # got closed by a write error of a tracking request this handler
             # runs inside a child task of the tracking task it would wait for,
-            # both tasks would wait for each other for ever
-            self.stop()
+            # both tasks would wait for each other for ever.
+            # For the same reason the cancellation is scheduled instead of
+            # requested right away: a cancellation that gets passed on to the
+            # task currently running this handler is lost when that task ends
+            # with the write error, the tracking task would survive
+            loop = asyncio.get_running_loop()
+            for tracked_user in self._tracked_users.values():
+                for task in (tracked_user.task, tracked_user.retry_task):
+                    if task:
+                        loop.call_soon(task.cancel)
+
             self._tracked_users = {}
 
     def stop(self) -> list[asyncio.Task]:
